@@ -7,10 +7,11 @@
 //	enc <kind> <algo> <keyid> <sec> <nanos> <meta> <adlen> <body> <ad>*
 //	      -> ok <HeaderAndBody hex> <signature pre-image hex> | err
 //	   impl: real Sign (HeaderAndBody of its result) and the real computeSignatureInput (hook)
-//	ver <kind> <sigok> (P <algo> <keyid> <sec> <nanos> <meta> <adlen> <body> | E) <ad>*
+//	ver <kind> <sigok> <hb> (O <hdr> <body> <unknown> (P <algo> <keyid> <sec> <nanos> <meta> <adlen> | E) | X) <ad>*
 //	      -> ok <algo> <keyid> <sec> <nanos> <meta> <adlen> <body> | err
-//	   impl: real Verify; the facts "what extractHeaderAndBody returns" come from
-//	   ExtractUnverifiedHeader/Body, "sigok" from an independent hash + ecdsa.VerifyASN1.
+//	   impl: real Verify; the facts are what the two proto.Unmarshal calls of
+//	   extractHeaderAndBody yield (real proto.Unmarshal / ExtractUnverifiedHeader) and "sigok" from
+//	   an independent hash + ecdsa.VerifyASN1. The model decides canonicity, lengths, algorithm.
 package main
 
 import (
@@ -177,23 +178,30 @@ func (e *env) verOp(m *cryptopb.SignedMessage, key crypto.PublicKey, ad [][]byte
 		e.Case(tag+"/"+vlib.Hex(m.HeaderAndBody)+"/"+vlib.Hex(m.Signature)+adWords(ad), tag, false)
 		return res
 	}
-	// facts
-	parse := "E"
+	// facts: what the two proto.Unmarshal calls of extractHeaderAndBody yield, and whether the
+	// signature is valid for sha(hb || ad...) (independent of computeSignatureInput)
+	facts := "X"
 	sigok := 0
-	uh, err1 := signed.ExtractUnverifiedHeader(m)
-	ub, err2 := signed.ExtractUnverifiedBody(m)
-	if err1 == nil && err2 == nil {
-		parse = "P " + hdrWords(int(uh.SignatureAlgorithm), uh.VerificationKeyID, uh.Timestamp, uh.Metadata,
-			uh.AssociatedDataLength, ub)
-		if pk, ok := key.(*ecdsa.PublicKey); ok && pk != nil {
-			if dig := hashFor(int(uh.SignatureAlgorithm), concat(append([][]byte{m.HeaderAndBody}, ad...)...)); dig != nil {
-				if ecdsa.VerifyASN1(pk, dig, m.Signature) {
-					sigok = 1
+	var outer cryptopb.HeaderAndBody
+	if err := proto.Unmarshal(m.HeaderAndBody, &outer); err == nil {
+		facts = fmt.Sprintf("O %s %s %s ", vlib.Hex(outer.Header), vlib.Hex(outer.Body),
+			vlib.Hex(outer.ProtoReflect().GetUnknown()))
+		uh, err1 := signed.ExtractUnverifiedHeader(m)
+		if err1 != nil {
+			facts += "E"
+		} else {
+			facts += fmt.Sprintf("P %d %s %d %d %s %d", int(uh.SignatureAlgorithm), vlib.Hex(uh.VerificationKeyID),
+				uh.Timestamp.Unix(), uh.Timestamp.Nanosecond(), vlib.Hex(uh.Metadata), uh.AssociatedDataLength)
+			if pk, ok := key.(*ecdsa.PublicKey); ok && pk != nil {
+				if dig := hashFor(int(uh.SignatureAlgorithm), concat(append([][]byte{m.HeaderAndBody}, ad...)...)); dig != nil {
+					if ecdsa.VerifyASN1(pk, dig, m.Signature) {
+						sigok = 1
+					}
 				}
 			}
 		}
 	}
-	op := fmt.Sprintf("ver %s %d %s%s", kindOf(key), sigok, parse, adWords(ad))
+	op := fmt.Sprintf("ver %s %d %s %s%s", kindOf(key), sigok, vlib.Hex(m.HeaderAndBody), facts, adWords(ad))
 	e.Op(op, ans, tag)
 	return res
 }
